@@ -68,6 +68,8 @@ enum SrcKind {
     /// Turtle statements with object and predicate lists: several triples per parser step
     TurtleMulti,
     XmlParser,
+    /// documented as buffering: parses the whole document before yielding anything
+    JsonLdParser,
     VecGraph,
     FastGraph,
 }
@@ -192,6 +194,8 @@ enum SinkFault {
 }
 
 struct Setup {
+    /// hash seed for executions that run on a fresh thread (hash-order-sensitive sources)
+    hs: u64,
     /// batch sizes of the Batch source
     batch: Vec<usize>,
     src: SrcKind,
@@ -903,8 +907,43 @@ fn document_xml(items: &[MTriple], broken: Option<usize>) -> (Vec<u8>, Vec<usize
     (doc.into_bytes(), ends)
 }
 
+fn document_jsonld(items: &[MTriple], broken: Option<usize>) -> (Vec<u8>, Vec<usize>) {
+    let mut doc = String::from("[\n");
+    let mut ends = vec![];
+    for (i, t) in items.iter().enumerate() {
+        let id = match &t[0] {
+            MTerm::Iri(s) => s.clone(),
+            _ => panic!("ORACLE: JSON-LD items have IRI subjects"),
+        };
+        let p = match &t[1] {
+            MTerm::Iri(p) => p.clone(),
+            _ => panic!("ORACLE: JSON-LD items have IRI predicates"),
+        };
+        let o = match &t[2] {
+            MTerm::Iri(o) => format!("{{\"@id\":\"{o}\"}}"),
+            MTerm::Bnode(b) => format!("{{\"@id\":\"_:{b}\"}}"),
+            MTerm::Lit(l, d) if d == XSD_STRING => format!("{{\"@value\":\"{l}\"}}"),
+            MTerm::Lit(l, d) => format!("{{\"@value\":\"{l}\",\"@type\":\"{d}\"}}"),
+            MTerm::Lang(l, tag) => format!("{{\"@value\":\"{l}\",\"@language\":\"{tag}\"}}"),
+            _ => panic!("ORACLE: term kind not used in stream items"),
+        };
+        if i > 0 {
+            doc.push_str(",\n");
+        }
+        if broken == Some(i) {
+            doc.push_str(&format!("{{\"@id\":\"{id}\",\"{p}\":[{{\"@id\":}}]}}"));
+        } else {
+            doc.push_str(&format!("{{\"@id\":\"{id}\",\"{p}\":[{o}]}}"));
+        }
+        ends.push(doc.len());
+    }
+    doc.push_str("\n]\n");
+    (doc.into_bytes(), ends)
+}
+
 fn document_for(src: SrcKind, items: &[MTriple], broken: Option<usize>) -> (Vec<u8>, Vec<usize>) {
     match src {
+        SrcKind::JsonLdParser => document_jsonld(items, broken),
         SrcKind::TurtleMulti => document_multi(items, broken),
         SrcKind::XmlParser => document_xml(items, broken),
         _ => document(items, broken),
@@ -912,6 +951,16 @@ fn document_for(src: SrcKind, items: &[MTriple], broken: Option<usize>) -> (Vec<
 }
 
 fn execute(setup: &Setup, sf: SrcFault, kf: SinkFault) -> Outcome {
+    if setup.src == SrcKind::JsonLdParser {
+        // json-ld iterates HashMaps: the order in which quads come out depends on the hash
+        // seed; every execution of one run gets the same one
+        simcore::driver::on_fresh_thread(setup.hs, || execute_inner(setup, sf, kf))
+    } else {
+        execute_inner(setup, sf, kf)
+    }
+}
+
+fn execute_inner(setup: &Setup, sf: SrcFault, kf: SinkFault) -> Outcome {
     let ops: Vec<Op> = setup
         .ops
         .iter()
@@ -991,7 +1040,7 @@ fn execute(setup: &Setup, sf: SrcFault, kf: SinkFault) -> Outcome {
                     with_chain(src, &ops, drive);
                 }
             }
-            SrcKind::NtParser | SrcKind::TurtleParser | SrcKind::TurtleMulti | SrcKind::XmlParser => {
+            SrcKind::NtParser | SrcKind::TurtleParser | SrcKind::TurtleMulti | SrcKind::XmlParser | SrcKind::JsonLdParser => {
                 let broken = match sf {
                     SrcFault::Syntax(k) => Some(k),
                     _ => None,
@@ -1015,6 +1064,10 @@ fn execute(setup: &Setup, sf: SrcFault, kf: SinkFault) -> Outcome {
                     with_chain_iter(sophia_turtle::parser::turtle::parse_bufread(rd), &ops, drive);
                 } else if setup.src == SrcKind::XmlParser {
                     with_chain_short(sophia_xml::parser::parse_bufread(rd), &ops, drive);
+                } else if setup.src == SrcKind::JsonLdParser {
+                    let p = sophia_jsonld::JsonLdParser::new();
+                    let qs = sophia_api::parser::QuadParser::parse(&p, rd);
+                    with_chain_short(qs.to_triples(), &ops, drive);
                 } else {
                     with_chain_short(sophia_turtle::parser::turtle::parse_bufread(rd), &ops, drive);
                 }
@@ -1134,8 +1187,10 @@ fn check(case: &Case<'_>, twin: &Outcome, out: &Outcome) -> Verdict {
         SrcFault::Read(_) => (out.read_fired, usize::MAX),
         _ => (false, n),
     };
-    // expected delivery before a source fault at item k
-    let exp_prefix: Vec<MTriple> = if k_src <= n {
+    // expected delivery before a source fault at item k (a buffering source delivers nothing)
+    let exp_prefix: Vec<MTriple> = if setup.src == SrcKind::JsonLdParser && src_fires {
+        vec![]
+    } else if k_src <= n {
         model_chain(&setup.items[..k_src.min(n)], &ops).0
     } else {
         expected.clone()
@@ -1611,7 +1666,8 @@ fn run_c15(ctx: &mut Ctx) -> Verdict {
         SrcKind::XmlParser,
         SrcKind::VecGraph,
         SrcKind::FastGraph,
-    ][ctx.tape.below(11)];
+        SrcKind::JsonLdParser,
+    ][ctx.tape.below(12)];
     let max_depth = if matches!(src, SrcKind::Iter | SrcKind::Batch) { 3 } else { 1 };
     let depth = ctx.tape.below(max_depth + 1);
     let mut consumer = CONSUMERS[ctx.tape.below(CONSUMERS.len())];
@@ -1619,11 +1675,19 @@ fn run_c15(ctx: &mut Ctx) -> Verdict {
         consumer = Consumer::TryForEach;
     }
     let n = ctx.tape.below(9);
-    let items = if src == SrcKind::TurtleMulti {
+    let mut items = if src == SrcKind::TurtleMulti {
         draw_items_multi(ctx, n)
     } else {
         draw_items(ctx, n)
     };
+    if src == SrcKind::JsonLdParser {
+        // the JSON-LD parser relabels blank nodes: keep ground items
+        for t in &mut items {
+            if t[2].is_bnode() {
+                t[2] = MTerm::iri("http://ex.org/o2");
+            }
+        }
+    }
     let mut ops: Vec<(OpKind, u64, u8)> = (0..depth)
         .map(|_| {
             let kind = [OpKind::Filter, OpKind::Map, OpKind::FilterMap][ctx.tape.below(3)];
@@ -1688,6 +1752,7 @@ fn run_c15(ctx: &mut Ctx) -> Verdict {
     let noise = Noise::draw(&mut ctx.tape, true);
     let batch: Vec<usize> = (0..ctx.tape.range(1, 3)).map(|_| ctx.tape.range(1, 4)).collect();
     let setup = Setup {
+        hs: ctx.tape.draw(1 << 32),
         batch,
         src,
         items,
@@ -1723,6 +1788,7 @@ fn run_c15(ctx: &mut Ctx) -> Verdict {
         SrcKind::TurtleParser => "source_turtle_parser",
         SrcKind::TurtleMulti => "source_turtle_parser_multi_object_statements",
         SrcKind::XmlParser => "source_rdfxml_parser",
+        SrcKind::JsonLdParser => "source_jsonld_parser_(buffering)",
         SrcKind::VecGraph => "source_vec_graph",
         SrcKind::FastGraph => "source_fast_graph",
     });
@@ -1734,8 +1800,9 @@ fn run_c15(ctx: &mut Ctx) -> Verdict {
     });
 
     // ---- delivery order
-    let delivery: Vec<MTriple> = if setup.src == SrcKind::FastGraph {
+    let delivery: Vec<MTriple> = if matches!(setup.src, SrcKind::FastGraph | SrcKind::JsonLdParser) {
         let probe = Setup {
+            hs: setup.hs,
             batch: vec![],
             src: setup.src,
             items: setup.items.clone(),
@@ -1748,7 +1815,7 @@ fn run_c15(ctx: &mut Ctx) -> Verdict {
         let o = execute(&probe, SrcFault::None, SinkFault::None);
         ensure!(
             as_sorted(&o.consumed) == as_sorted(&expected),
-            "wrong_items_consumed/FastGraph/TryForEach",
+            "wrong_items_consumed/observed_order_source/TryForEach",
             "{head}: store source delivered {} but the model says (in some order) {}",
             fmt_ts(&o.consumed),
             fmt_ts(&expected)
@@ -1780,7 +1847,7 @@ fn run_c15(ctx: &mut Ctx) -> Verdict {
                 src_faults.push(SrcFault::IterErr(k));
             }
         }
-        SrcKind::NtParser | SrcKind::TurtleParser | SrcKind::TurtleMulti | SrcKind::XmlParser => {
+        SrcKind::NtParser | SrcKind::TurtleParser | SrcKind::TurtleMulti | SrcKind::XmlParser | SrcKind::JsonLdParser => {
             for k in 0..n {
                 src_faults.push(SrcFault::Syntax(k));
             }
@@ -1933,7 +2000,7 @@ fn main() {
             "single fault per execution (one source fault or one sink fault)",
             "<= 8 items per pipeline, chains up to depth 3 on the iterator source and depth <= 1 on parser and store sources",
             "read errors inside a statement: only prefix-ness and 'nothing beyond the offset' are asserted (the parser decides which statement it was in)",
-            "the JSON-LD parser source (documented as buffering) is not part of this catalogue",
+            "the JSON-LD parser source is documented as buffering: after a source fault nothing may have been delivered (and nothing is required to)",
         ],
         panic_is_violation: true,
         death_is_violation: true,
